@@ -51,7 +51,8 @@ AcceptIffNoReason == last.kind = "submit" => (Accept(last.c, roots) <=> Reasons(
 OppositeRefuted ==
     last.kind = "submit" =>
         LET opp == Ideal([last.c EXCEPT !.body = "ok", !.pos = "inside", !.eku = "serverAuth", !.order = "ok",
-                                        !.ep = IF last.c.type = "cert" THEN "add-chain" ELSE "add-pre-chain"],
+                                        !.type = IF @ = "badpoison" THEN "cert" ELSE @,
+                                        !.ep = IF last.c.type = "precert" THEN "add-pre-chain" ELSE "add-chain"],
                          {last.c.root}) IN
         IF Accept(last.c, roots)
         THEN "C09.AcceptedStatus" \in Verdict(last.c, roots, Ideal(last.c, {}))
